@@ -98,6 +98,7 @@ func profileFor(prop string, tier string) *Profile {
 	case "C16":
 		p.W["gov"] = 30
 		p.Dt = []int64{1000, 5000, 5000, 10000, 30000}
+		p.CheckPct, p.HoldPct = 50, 10
 	case "C17":
 		p.W = map[string]int{"ent": 25, "wrk": 10, "bcn": 10, "bank": 5, "gov": 2, "str": 3}
 		p.Queries = 3
@@ -237,7 +238,7 @@ func NewRun(prop string, seed int64, tier string) (*Trace, *Gen) {
 			k.Whitelist = append(k.Whitelist, i)
 		}
 	}
-	if (prop == "C14" || prop == "C05" || prop == "C04") && g.pct(20) {
+	if (prop == "C14" || prop == "C05" || prop == "C04" || prop == "C02" || prop == "C03") && g.pct(20) {
 		k.WhitelistGov = true
 	}
 	lim := [][2]uint64{{1, 1}, {1, 3}, {2, 5}, {3, 9}, {5, 9}, {2, 2}, {100, 300}, {50000, 600000}}
@@ -271,6 +272,24 @@ func NewRun(prop string, seed int64, tier string) (*Trace, *Gen) {
 		// bank refuses to credit, where completion cannot work and must not create coins
 		k.GenesisOrder = &GenOrder{Purchaser: pick(r, []int{3, 4, AddrFeeCollector, AddrBonded, AddrGov}), Amount: pick(r, []string{"777", "1000000"}), Status: pick(r, []int{1, 2, 2})}
 		t.Flags = append(t.Flags, "genesis-order")
+	}
+	if prop == "C14" && !g.Flags["denomchange"] && g.pct(30) {
+		// a node started with --inv-check-period: the crisis end-blocker asserts every registered
+		// invariant and halts the chain on a broken one
+		k.InvCheckPeriod = pick(r, []uint{1, 1, 5})
+	}
+	if prop == "C17" && g.pct(6) {
+		k.ManyDenoms = 100 + r.Intn(40)
+	}
+	if prop == "C01" && g.pct(6) && !g.Flags["idwrap"] {
+		// a raised order in the genesis document without a raise time (what a hand-edited or
+		// migrated genesis looks like)
+		k.GenesisOrder = &GenOrder{Purchaser: 3, Amount: "4242", Status: 1, NoRaiseTime: true}
+	}
+	if prop == "C04" && g.pct(4) {
+		// started with --x-crisis-skip-assert-invariants from a document whose escrow is not backed
+		k.UnbackedLocked, k.SkipGenesisInvariants = pick(r, []string{"1", "500000"}), true
+		t.Flags = append(t.Flags, "unbacked-genesis")
 	}
 	if prop == "C02" && g.pct(3) {
 		k.UnbackedLocked = pick(r, []string{"1", "123456789", "1000000000000000000000"})
@@ -670,6 +689,9 @@ func (g *Gen) setFee(w *World, ts *TxSpec) {
 	denom := w.M.Wrk.P.Denom
 	hasReg := fee.Sign() > 0
 	if !hasReg {
+		if len(ts.Msgs) == 1 && ts.Msgs[0].Tag == "whole_balance" {
+			return
+		}
 		if g.pct(30) {
 			ts.Fee = fmt.Sprintf("%d%s", 1+g.R.Intn(5000), Native)
 		}
@@ -969,6 +991,11 @@ func (g *Gen) regMsg(w *World, kind string) MsgSpec {
 			case y < 97:
 				h = 0
 			}
+			if n := len(reg.Kept); n > 0 && g.pct(8) {
+				// unchanged data anchored again: the same hashes as the previous record
+				w.Fault("input.same_hash_again")
+				return MsgSpec{T: "wrk.record", A: owner, Id: id, N: h, S: append([]string(nil), reg.Kept[n-1].Fields...)}
+			}
 			return MsgSpec{T: "wrk.record", A: owner, Id: id, N: h, S: []string{randStr(g.R, g.fieldLen(66)), randStr(g.R, g.fieldLen(66)), randStr(g.R, g.fieldLen(66)), randStr(g.R, 4), randStr(g.R, 4)}}
 		}
 		st := uint64(w.Now.Unix())
@@ -977,6 +1004,10 @@ func (g *Gen) regMsg(w *World, kind string) MsgSpec {
 		}
 		if g.pct(3) {
 			st = 0
+		}
+		if n := len(reg.Kept); n > 0 && g.pct(10) {
+			w.Fault("input.same_hash_again")
+			return MsgSpec{T: "bcn.record", A: owner, Id: id, N: st, S: append([]string(nil), reg.Kept[n-1].Fields...)}
 		}
 		return MsgSpec{T: "bcn.record", A: owner, Id: id, N: st, S: []string{randStr(g.R, g.fieldLen(66))}}
 	}
@@ -1039,8 +1070,13 @@ func (g *Gen) strMsg(w *World) MsgSpec {
 		dep := new(big.Int).Mul(new(big.Int).SetUint64(rate), new(big.Int).SetUint64(dur))
 		dep.Add(dep, big.NewInt(int64(g.R.Intn(int(rate)))))
 		if g.Flags["huge"] && g.pct(35) {
-			rate = pick(g.R, []uint64{1000000000000, 1 << 62, 1<<63 - 1, 1000000000000000})
+			rate = pick(g.R, []uint64{1000000000000, 1 << 62, 1<<63 - 1, 1000000000000000, 2000000000000000001, 5000000000000000000})
 			dep = new(big.Int).Mul(new(big.Int).SetUint64(rate), new(big.Int).SetUint64(dur))
+			if g.pct(40) {
+				// a deposit a few base units short of (or beyond) a whole number of seconds
+				dep.Add(dep, new(big.Int).SetUint64(rate))
+				dep.Add(dep, big.NewInt(pick(g.R, []int64{-3, -2, -1, 1, 2})))
+			}
 			if g.pct(30) {
 				dep, _ = new(big.Int).SetString(pick(g.R, []string{"1000000000000000000000000", "1606938044258990275541962092341162602522202993782792835301376", "9223372036854775808000"}), 10)
 			}
@@ -1070,6 +1106,13 @@ func (g *Gen) strMsg(w *World) MsgSpec {
 		denom := st.Denom
 		if g.pct(4) {
 			denom = Denom3
+		}
+		if s >= 0 && g.pct(6) {
+			// everything the sender can spend of that denomination (sent without a transaction fee)
+			if bal := w.Ref.App.BankKeeper.SpendableCoins(w.Ctx(), AddrOf(w.Actors, s)).AmountOf(denom); bal.IsPositive() {
+				w.Fault("input.topup_whole_balance")
+				return MsgSpec{T: "str.topup", A: s, B: r, Amt: bal.String(), Denom: denom, Tag: "whole_balance"}
+			}
 		}
 		return MsgSpec{T: "str.topup", A: s, B: r, Amt: amt.String(), Denom: denom}
 	case x < 88:
@@ -1262,7 +1305,7 @@ func (g *Gen) attackTx(w *World) TxSpec {
 	a := g.actor()
 	switch g.R.Intn(7) {
 	case 0:
-		return g.wrap(w, MsgSpec{T: "bank.send", A: a, B: pick(g.R, []int{AddrEnterprise, AddrStream, AddrFeeCollector, AddrBonded}), Amt: "1000", Denom: Native, Tag: "attack"})
+		return g.wrap(w, MsgSpec{T: "bank.send", A: a, B: pick(g.R, []int{AddrEnterprise, AddrStream, AddrFeeCollector, AddrBonded, AddrGov}), Amt: "1000", Denom: Native, Tag: "attack"})
 	case 1:
 		return g.wrap(w, MsgSpec{T: "bank.multisend", A: a, B: pick(g.R, []int{AddrEnterprise, AddrStream}), Amt: "1000", Denom: Native, Tag: "attack"})
 	case 2:
@@ -1419,6 +1462,23 @@ func (g *Gen) multiTx(w *World) TxSpec {
 	if signer == -1 {
 		signer = g.actor()
 		msgs = []MsgSpec{{T: "bank.send", A: signer, B: g.otherActor(signer), Amt: "1", Denom: Native}}
+	}
+	if g.pct(15) && signer >= 0 {
+		// a wrapper among plain messages: the signer executes one more message of its own through
+		// authz MsgExec, placed anywhere in the list
+		var in MsgSpec
+		if g.pct(50) {
+			in = MsgSpec{T: "bank.send", A: signer, B: g.otherActor(signer), Amt: "1", Denom: Native}
+		} else {
+			in = g.customMsg(w)
+			if in.A != signer {
+				in = MsgSpec{T: "bank.send", A: signer, B: g.otherActor(signer), Amt: "2", Denom: Native}
+			}
+		}
+		ex := MsgSpec{T: "authz.exec", A: signer, Inner: []MsgSpec{in}}
+		k := g.R.Intn(len(msgs) + 1)
+		msgs = append(msgs[:k], append([]MsgSpec{ex}, msgs[k:]...)...)
+		w.Fault("msg.exec_among_plain")
 	}
 	if g.pct(35) {
 		// make the k-th message fail
